@@ -8,6 +8,7 @@ import (
 // C04 — v-for renders one scoped instance per item, in order, and restores the scope.
 
 //verif:harness VerifC04_Loop quick.maxpaths=60000 thorough.maxpaths=400000 timeout=2400
+//verif:harness VerifC04_Bodies quick.maxpaths=40000 thorough.maxpaths=200000 timeout=1800
 //verif:harness VerifC04_Nested quick.maxpaths=20000 thorough.maxpaths=100000 timeout=1800
 
 type zzC04Root struct {
@@ -227,4 +228,46 @@ func VerifC04_Nested() {
 	zzNote("got", got.String())
 	zzAssert(got.String() == want.String(), "C04.nested.compose")
 	zzAssert(strings.Contains(out, "<p>after:</p>"), "C04.nested.scope-restored")
+}
+
+// VerifC04_Bodies: each instance sees its own item whatever construct the
+// loop body uses to read it (text, attribute, v-text, v-html, include prop,
+// slot content, nested element, <template> wrappers).
+func VerifC04_Bodies() {
+	bodies := []string{
+		`{{ it }}`,
+		`<b :title="it">{{ it }}</b>`,
+		`<b v-text="it"></b>`,
+		`<template v-html="it"></template>`,
+		`<span><template v-html="it"></template></span>`,
+		`<template include="c.vuego" :p="it"></template>`,
+		`<div><template include="c.vuego" :p="it"></template></div>`,
+		`<template include="s.vuego"><em>{{ it }}</em></template>`,
+		`<template v-if="it != 'zz'"><i>{{ it }}</i></template>`,
+		`<template :q="it"><u>{{ q }}</u></template>`,
+	}
+	k := zzChoice("body", len(bodies))
+	n := 1 + zzChoice("n", 3)
+	root := []string{"li", "template"}[zzChoice("root", 2)]
+	items := []string{"aa", "bb", "cc"}[:n]
+	body := `<ul><` + root + ` v-for="it in items">` + bodies[k] + `</` + root + `></ul>`
+	fsys := newZZFS(map[string]string{"c.vuego": `<em>{{ p }}</em>`, "s.vuego": `<section><slot></slot></section>`})
+	out, err := zzRender(NewFS(fsys), body, map[string]any{"items": items})
+	zzNote("template", body)
+	zzNote("out", out)
+	zzAssert(err == nil, "C04.bodies.render-error")
+	pos := 0
+	for _, it := range items {
+		p := strings.Index(out[pos:], it)
+		zzAssert(p >= 0, "C04.bodies.instance-sees-its-own-item")
+		pos += p + len(it)
+	}
+	for _, it := range items {
+		cnt := strings.Count(out, it)
+		want := 1
+		if k == 1 {
+			want = 2
+		}
+		zzAssert(cnt == want, "C04.bodies.item-count")
+	}
 }
